@@ -49,7 +49,7 @@ typedef PoissonLogLikelihoodWithLinearModelForMeanAndProjData<Img> PLL;
 typedef OSMAPOSLReconstruction<Img> Recon;
 
 static const int IK = 12;  // images are logged as round(v * 2^IK)
-static const int GK = 6;   // prior gradients as round(v * 2^GK)
+static const int GK = 8;   // prior gradients as round(v * 2^GK)
 static const int LK = 10;  // objective function values as round(v * 2^LK)
 
 // ---------------------------------------------------------------- harness-side image processor
@@ -240,17 +240,17 @@ static void put_fx(vh::Json& j, const char* key, const char* exkey, const Img& i
   }
   j.arr(key, out).boolean(exkey, exact);
 }
-static std::string bits_of(const Img& im) {
-  std::string s;
-  char buf[16];
+// raw float bits of an image as two arrays of 16-bit limbs (TLC integers are 32 bit)
+static void put_bits(vh::Json& j, const char* hkey, const char* lkey, const Img& im) {
+  std::vector<long> hi, lo;
   for (auto it = im.begin_all_const(); it != im.end_all_const(); ++it) {
     const float f = *it;
     uint32_t u;
     std::memcpy(&u, &f, 4);
-    snprintf(buf, sizeof buf, "%08x", u);
-    s += buf;
+    hi.push_back((long)(u >> 16));
+    lo.push_back((long)(u & 0xffffu));
   }
-  return s;
+  j.arr(hkey, hi).arr(lkey, lo);
 }
 static long long fxval(double v, int k) {
   const double sc = std::ldexp(v, k);
@@ -287,6 +287,8 @@ static Cfg random_cfg(const Sys& s, vh::Rng& rng, long i, int stage) {
     c.filt = rng.range(0, 1);
   }
   c.eip = true;
+  // every fourth object: plain EM with a single subset (the configurations the log-likelihood and count clauses speak about)
+  if (i % 4 == 3) { c.N = 1; c.startSubset = 0; c.prior = 0; c.iuf = c.iif = 0; if (i % 8 == 3) c.additive = false; }
   const size_t nb = s.bins.size();
   for (size_t b = 0; b < nb; ++b) {
     c.a.push_back(c.additive ? rng.range(0, 3) : 0);
@@ -379,6 +381,9 @@ static void run_exact(vh::Trace& tr, const Sys& s, const Matrix& m, const Cfg& c
 
 // ---------------------------------------------------------------- mode free (+ restart)
 static std::string saved_name(const std::string& prefix, int k) { return prefix + "_" + std::to_string(k) + ".hv"; }
+static void remove_saved(const std::string& prefix, int k) {
+  for (const char* ext : { ".hv", ".v", ".ahv" }) std::remove((prefix + "_" + std::to_string(k) + ext).c_str());
+}
 
 static void run_free(vh::Trace& tr, const Sys& s, const Matrix& m, const Cfg& c0, vh::Rng& rng, const std::string& scratch, int stage) {
   Cfg c = c0;
@@ -424,7 +429,8 @@ static void run_free(vh::Trace& tr, const Sys& s, const Matrix& m, const Cfg& c0
     put_fx(j, "out", "outx", *target, IK);
     bool verr = false;
     const double L = value_of(w, *target, &verr);
-    j.num("L", fxval(L, LK)).boolean("verr", verr).str("bits", bits_of(*target));
+    j.num("L", fxval(L, LK)).boolean("verr", verr);
+    put_bits(j, "bh", "bl", *target);
     tr.emit(j);
   }
   shared_ptr<Img> prev(target->clone());
@@ -442,11 +448,12 @@ static void run_free(vh::Trace& tr, const Sys& s, const Matrix& m, const Cfg& c0
     put_fx(j, "out", "outx", *im, IK);
     bool verr = false;
     const double L = value_of(w, *im, &verr);
-    j.num("L1", fxval(L, LK)).boolean("verr", verr).str("bits", bits_of(*im));
+    j.num("L1", fxval(L, LK)).boolean("verr", verr);
+    put_bits(j, "bh", "bl", *im);
     tr.emit(j);
     prev = im;
   }
-  tr.emit(vh::Json("Final").str("bits", bits_of(*target)));
+  { vh::Json jf("Final"); put_bits(jf, "bh", "bl", *target); tr.emit(jf); }
 
   // ---- restart from the file saved after k, for every interruption point k
   for (int k = 1; k < K; ++k) {
@@ -462,7 +469,8 @@ static void run_free(vh::Trace& tr, const Sys& s, const Matrix& m, const Cfg& c0
       if (rerr || !from) { tr.emit(vh::Json("Resume").num("k", k).num("variant", variant).boolean("err", true).str("msg", msg.substr(0, 100))); continue; }
       const std::string rprefix = scratch + "/c07_res";
       vh::Json jr("Resume");
-      jr.num("k", k).num("variant", variant).boolean("eip", variant == 2 ? false : cr.eip).str("from", bits_of(*from));
+      jr.num("k", k).num("variant", variant).boolean("eip", variant == 2 ? false : cr.eip);
+      put_bits(jr, "fromh", "froml", *from);
       World w2;
       Recon* rc = nullptr;
       bool ok2 = true;
@@ -483,7 +491,7 @@ static void run_free(vh::Trace& tr, const Sys& s, const Matrix& m, const Cfg& c0
         rc->set_start_subiteration_num(k + 1);
         rerr = false;
       }
-      jr.str("afterSetUp", bits_of(*from));
+      put_bits(jr, "afterh", "afterl", *from);
       if (!rerr && ok2) rerr = vh::threw([&] { rc->reconstruct(from); }, &msg);
       jr.boolean("err", rerr || !ok2);
       if (rerr) jr.str("msg", msg.substr(0, 100));
@@ -495,17 +503,13 @@ static void run_free(vh::Trace& tr, const Sys& s, const Matrix& m, const Cfg& c0
         shared_ptr<Img> im;
         const bool e2 = vh::threw([&] { im = read_from_file<Img>(saved_name(rprefix, jn)); }, &msg);
         jc.boolean("err", e2 || !im);
-        if (!e2 && im) jc.str("bits", bits_of(*im));
+        if (!e2 && im) put_bits(jc, "bh", "bl", *im);
         tr.emit(jc);
-        std::remove(saved_name(rprefix, jn).c_str());
-        std::remove((rprefix + "_" + std::to_string(jn) + ".v").c_str());
+        remove_saved(rprefix, jn);
       }
     }
   }
-  for (int k = 1; k <= K; ++k) {
-    std::remove(saved_name(prefix, k).c_str());
-    std::remove((prefix + "_" + std::to_string(k) + ".v").c_str());
-  }
+  for (int k = 1; k <= K; ++k) remove_saved(prefix, k);
 }
 
 int main(int argc, char** argv) {
